@@ -781,4 +781,6 @@ func ruleR37_2(c *Check) {
 func propC37(c *Check) {
 	ruleR37_1(c)
 	ruleR37_2(c)
+	// same results as on disk: the mode-independent part of DropAll (id space restart ⇒ caches cleared)
+	ruleR29_4(c)
 }
